@@ -11,6 +11,7 @@ import (
 	"time"
 
 	"github.com/Comcast/rulio/core"
+	"github.com/Comcast/rulio/storage/bolt"
 	"verif/harness/world"
 )
 
@@ -71,11 +72,16 @@ func main() {
 		out    = flag.String("out", "trace.ndjson", "output file")
 		par    = flag.Int("par", 8, "traces run concurrently")
 		mixed  = flag.Bool("mixed-events", false, "events may hold arrays of mixed scalar types")
+		faults = flag.Bool("faults", false, "inject one storage failure in the second half of each trace")
 		via    = flag.String("via", "", "\"\" (core.Location) | system (sys.System)")
 		ttl    = flag.String("ttl", "all", "location cache TTL for -via system: never|1ms|forever|all (rotate)")
 		check  = flag.String("check", "both", "existence checking for -via system: on|off|both (rotate)")
 	)
 	flag.Parse()
+	if *prof == "boltalias" {
+		boltAlias(*state)
+		return
+	}
 	p, ok := profiles()[*prof]
 	if !ok {
 		fmt.Fprintln(os.Stderr, "unknown profile", *prof)
@@ -105,9 +111,22 @@ func main() {
 					g := &world.Gen{R: rand.New(rand.NewSource(*seed*1000003 + int64(i))), P: p, T: rec.T}
 					ctx := core.NewContext("verif")
 					ctx.Verbosity = core.NOTHING
-					ms, _ := core.NewMemStorage(ctx)
-					_ = store
-					cfg := world.Config{State: st, Store: "mem", MaxFacts: p.MaxFacts, Locs: p.Locs, Via: *via}
+					var ms core.Storage
+					if *store == "bolt" {
+						file := fmt.Sprintf("%s/verif-bolt-%d-%d-%s-%d.db", os.TempDir(), os.Getpid(), i, st, attempt)
+						os.Remove(file)
+						bs, err := bolt.NewStorage(ctx, file)
+						if err != nil {
+							fmt.Fprintln(os.Stderr, "bolt:", err)
+							os.Exit(2)
+						}
+						defer os.Remove(file)
+						defer bs.Close(ctx)
+						ms = bs
+					} else {
+						ms, _ = core.NewMemStorage(ctx)
+					}
+					cfg := world.Config{State: st, Store: *store, MaxFacts: p.MaxFacts, Locs: p.Locs, Via: *via}
 					if *via == "system" || *via == "http" {
 						cfg.Sys.TTL = *ttl
 						if *ttl == "all" {
@@ -126,7 +145,28 @@ func main() {
 							time.Sleep(1100 * time.Millisecond)
 							continue
 						}
+						if *faults && k >= p.Len/2 && g.R.Intn(6) == 0 {
+							op.FailIn = 1 + g.R.Intn(3)
+						}
+						if *faults && k >= p.Len/3 && (op.Op == "RemFact" || op.Op == "RemRule") && g.R.Intn(3) == 0 {
+							op.FailIn = 1 + g.R.Intn(4) // removals cascade: later writes of the same operation
+						}
 						w.Do(op)
+						if w.Faulted {
+							// A single-write, idempotent operation is retried: the retry has to be
+							// acknowledged only if the change really is in storage (checked by the
+							// reload that follows).  Anything else: memory and storage may disagree
+							// now, and the trace ends here.
+							idem := (op.Op == "AddFact" && op.Id != "" && op.Val["ttl"] == nil && op.Val["expires"] == nil) ||
+								(op.Op == "EnableRule" && !op.Flag) || op.Op == "SetParents"
+							if !idem {
+								break
+							}
+							w.Faulted = false
+							op.FailIn = 0
+							w.Do(op)
+							w.Do(world.Op{Op: "Reload", Loc: op.Loc})
+						}
 					}
 					if w.Void() {
 						mu.Lock()
@@ -146,4 +186,73 @@ func main() {
 		os.Exit(2)
 	}
 	fmt.Printf("events=%d voided=%d out=%s\n", rec.Len(), voided, *out)
+}
+
+// boltAlias: data handed back by the Bolt back end has to stay intact while later
+// writes make the database file grow (and be re-mapped).
+func boltAlias(state string) {
+	ctx := core.NewContext("verif")
+	ctx.Verbosity = core.NOTHING
+	file := fmt.Sprintf("%s/verif-boltalias-%d.db", os.TempDir(), os.Getpid())
+	os.Remove(file)
+	defer os.Remove(file)
+	bs, err := bolt.NewStorage(ctx, file)
+	if err != nil {
+		fmt.Fprintln(os.Stderr, "bolt:", err)
+		os.Exit(2)
+	}
+	mk := func() *core.Location {
+		var st core.State
+		if state == "indexed" {
+			st, _ = core.NewIndexedState(ctx, "L", bs)
+		} else {
+			st, _ = core.NewLinearState(ctx, "L", bs)
+		}
+		loc, err := core.NewLocation(ctx, "L", st, nil)
+		if err != nil {
+			fmt.Fprintln(os.Stderr, "location:", err)
+			os.Exit(2)
+		}
+		c := core.DefaultControl()
+		c.Verbosity = core.NOTHING
+		c.MaxFacts = 1000000
+		loc.SetControl(c)
+		return loc
+	}
+	loc := mk()
+	for i := 0; i < 20; i++ {
+		if _, err := loc.AddFact(ctx, fmt.Sprintf("k%d", i), core.Map{"kind": "keep", "n": float64(i)}); err != nil {
+			fmt.Fprintln(os.Stderr, "add:", err)
+			os.Exit(2)
+		}
+	}
+	loc = mk() // reloaded from storage: holds what Load handed back
+	big := make([]byte, 4000)
+	for i := range big {
+		big[i] = 'x'
+	}
+	other, _ := core.NewLinearState(ctx, "M", bs)
+	oloc, _ := core.NewLocation(ctx, "M", other, nil)
+	oc := core.DefaultControl()
+	oc.Verbosity = core.NOTHING
+	oc.MaxFacts = 1000000
+	oloc.SetControl(oc)
+	for i := 0; i < 2500; i++ { // ~10 MB into the same file
+		if _, err := oloc.AddFact(ctx, fmt.Sprintf("g%d", i), core.Map{"pad": string(big)}); err != nil {
+			fmt.Fprintln(os.Stderr, "grow:", err)
+			os.Exit(2)
+		}
+	}
+	srs, err := loc.SearchFacts(ctx, core.Map{"kind": "keep", "n": "?n"}, false)
+	if err != nil || len(srs.Found) != 20 {
+		fmt.Printf("boltalias: search on the reloaded location gave %v, %d results\n", err, len(srs.Found))
+		os.Exit(3)
+	}
+	for _, sr := range srs.Found {
+		if len(sr.Js) == 0 || sr.Js[0] != '{' {
+			fmt.Printf("boltalias: corrupted stored JSON %q\n", sr.Js)
+			os.Exit(3)
+		}
+	}
+	fmt.Println("boltalias ok")
 }
